@@ -380,10 +380,22 @@ def structuralC (u : U) (σ : Store) (t1r t2r : Ty) : Out :=
     | some (σ', false) => some (σ', .error [.mismatch])
   | none, none => structuralD u σ t1r t2r
 
+/-- `(Type::Primitive(p1), Type::Primitive(p2)) if p1 == p2` -/
+def samePrim (a b : Ty) : Bool :=
+  match asPrim a, asPrim b with
+  | some p1, some p2 => decide (p1 = p2)
+  | _, _ => false
+
+/-- `(Type::TypeScheme(s1), Type::TypeScheme(s2)) if s1 == s2` -/
+def sameScheme (a b : Ty) : Bool :=
+  match asScheme a, asScheme b with
+  | some s1, some s2 => decide (s1 = s2)
+  | _, _ => false
+
 /-- equal primitives / type schemes, `unit` ~ `()` ~ `{}`, one-element tuples, `Any` / `Failure`, then `structuralC` -/
 def structuralB (u : U) (σ : Store) (t1 t2 t1r t2r : Ty) : Out :=
-  if (match asPrim t1r, asPrim t2r with | some p1, some p2 => decide (p1 = p2) | _, _ => false) then some (σ, .ok .ident)
-  else if (match asScheme t1r, asScheme t2r with | some s1, some s2 => decide (s1 = s2) | _, _ => false) then some (σ, .ok .ident)
+  if samePrim t1r t2r then some (σ, .ok .ident)
+  else if sameScheme t1r t2r then some (σ, .ok .ident)
   else if (asScheme t1r).isSome || (asScheme t2r).isSome then some (σ, .error [.mismatch])
   else if (isUnit t1r && isTuple0 t2r) || (isTuple0 t1r && isUnit t2r) then some (σ, .ok .ident)
   else match asTuple1 t2r with
